@@ -35,4 +35,20 @@ Laws(p, q, K) ==
   /\ Eq(a, a) /\ (Eq(a, b) = Eq(b, a))
   /\ (Eq(a, b) => \A k \in K : At(a, k) = At(b, k))
   /\ {Keys(Merge(a, b))[i] : i \in 1..Len(Merge(a, b))} = {Keys(Merge(b, a))[i] : i \in 1..Len(Merge(b, a))}
+
+(* Keys that are not scalars (arrs) cannot be hashed: the map keeps their pairs in a second list (NonHashablePairs) that every walk visits AFTER the hashed pairs,   *)
+(* and finds duplicates among them with ==.  NH is the set of such keys.  Items is that walk.  Arr#M (object.NewPanMap) does NOT look for duplicates among       *)
+(* non-hashable keys - a named deviation from the literal, which does.                                                                                          *)
+Items(m, NH) == SelectSeq(m, LAMBDA pr : pr[1] \notin NH) \o SelectSeq(m, LAMBDA pr : pr[1] \in NH)
+ArrM(ps, NH) == Build(SelectSeq(ps, LAMBDA pr : pr[1] \notin NH)) \o SelectSeq(ps, LAMBDA pr : pr[1] \in NH)
+FirstAt(m, k) == IF HasKey(m, k) THEN m[CHOOSE i \in 1..Len(m) : m[i][1] = k /\ \A j \in 1..(i - 1) : m[j][1] # k][2] ELSE 0
+LawsNH(p, q, K, NH) ==
+  LET a == Build(p) b == Build(q) IN
+  /\ Laws(p, q, K)
+  /\ PairSet(Items(a, NH)) = PairSet(a) /\ Len(Items(a, NH)) = Len(a)
+  /\ Items(Items(a, NH), NH) = Items(a, NH)
+  /\ Build(Items(a, NH)) = Items(a, NH)
+  /\ (NH = {} => Items(a, NH) = a)
+  /\ Len(ArrM(p, NH)) >= Len(a) /\ (\A i \in 1..Len(p) : p[i][1] \notin NH) => ArrM(p, NH) = a
+  /\ \A k \in K : FirstAt(a, k) = At(a, k)
 =============================================================================
